@@ -49,6 +49,21 @@ Fixpoint list_eqb {A} (eqb : A -> A -> bool) (l1 l2 : list A) : bool :=
   | _, _ => false
   end.
 
-Fixpoint mapi_from {A B} (f : nat -> A -> B) (i : nat) (l : list A) : list B :=
-  match l with [] => [] | x :: r => f i x :: mapi_from f (S i) r end.
-Definition mapi {A B} (f : nat -> A -> B) (l : list A) : list B := mapi_from f 0 l.
+Section Mapi.
+  Context {A B : Type} (f : nat -> A -> B).
+  Fixpoint mapi_from (i : nat) (l : list A) : list B :=
+    match l with [] => [] | x :: r => f i x :: mapi_from (S i) r end.
+  Definition mapi (l : list A) : list B := mapi_from 0 l.
+End Mapi.
+
+Fixpoint split_on (sep : ascii) (s : string) : list string :=
+  match s with
+  | EmptyString => [EmptyString]
+  | String c r =>
+      if Ascii.eqb c sep then EmptyString :: split_on sep r
+      else match split_on sep r with
+           | l :: ls => String c l :: ls
+           | [] => [String c EmptyString]
+           end
+  end.
+
